@@ -134,7 +134,7 @@ def _shape_edges(shape, vs):
 
 
 def build_clean_network(rng, N, families, class_jds, class_weights=None, assort=0.0, ids="shuffled", graph_cls=nx.Graph,
-                        max_repair=200000):
+                        max_repair=200000, scramble=False):
     """families: [(name, shape, size)] one per topology (a custom two-name motif is given as
     (names-per-edge list, shape, size)).  class_jds: list of joint-degree tuples (one entry per topology,
     in units of motif memberships); every vertex is assigned one class.  Motifs are formed by stub
@@ -264,7 +264,10 @@ def build_clean_network(rng, N, families, class_jds, class_weights=None, assort=
     q = getattr(G, "_quiet", None)
     if q is not None:
         G._quiet = True
-    G.add_nodes_from(range(N))
+    order = list(range(N))
+    if scramble:
+        rng.shuffle(order)           # insertion order of the vertices is free
+    G.add_nodes_from(order)
     colnames = []
     for name, _, _ in families:
         for nm in (name if isinstance(name, list) else [name]):
